@@ -661,6 +661,48 @@ def r10i(ctx):
                                f"tree, so in the clone it is a detached copy — what the clone's setters add through it never reaches the clone's document")
 
 
+def r10j(ctx):
+    """What a parsed part knows beyond its bytes is carried into the clone of the document.
+
+    Document.clone does not copy the parsed parts: it serialises each into the cloned container and lets the clone parse them again on
+    demand.  Everything a part holds in its tree survives that; an instance attribute that is *not* derived from the bytes does not — the
+    clone's part is a new object with the constructor's defaults.  Today there is one: `Meta._generator_modified` ("the caller chose a
+    generator, do not stamp ours at save"): without it the clone, saved, carries another `meta:generator` than the original — equal at
+    birth, different on disk.  Rule: for every attribute that a class derived from XmlPart assigns on itself (the tree, root, container and
+    part name of XmlPart aside), Document.clone either clones the parsed parts themselves or names that attribute.
+    """
+    repo = ctx.repo
+    ctx.rule("R10j", "every attribute a parsed part keeps outside its bytes is carried over by Document.clone", floor=1)
+    base = repo.cls("XmlPart")
+    f = repo.func("Document.clone", "getter") if repo.find_func("Document.clone", "getter") else repo.func("Document.clone")
+    clones_parts = False  # Document.clone rebuilds the parts from bytes (R10e); a version that clones the part objects would need this rule rewritten
+    named = {x.attr for x in walk_no_nested(f.node) if isinstance(x, ast.Attribute)}
+    n = 0
+    for c in repo.all_classes():
+        if c is base or base not in c.mro:
+            continue
+        attrs = {}
+        for name, fs in c.methods.items():
+            for g in fs:
+                if g.cls is not c:
+                    continue
+                for a in walk_no_nested(g.node):
+                    tg = a.targets if isinstance(a, ast.Assign) else [a.target] if isinstance(a, ast.AnnAssign) and a.value is not None else []
+                    for t in tg:
+                        if isinstance(t, ast.Attribute) and isinstance(t.value, ast.Name) and t.value.id == "self" and c.lookup(t.attr) is None:
+                            attrs.setdefault(t.attr, (g, a))  # (a name the class defines is a property: the store goes through its setter, into the tree)
+        for attr, (g, a) in sorted(attrs.items()):
+            n += 1
+            ok = clones_parts or attr in named
+            ctx.instance("R10j", f"{g.file}:{c.name}.{attr}", "carried over by Document.clone", ok=ok, nontrivial=True, line=a.lineno)
+            if not ok:
+                ctx.report("R10j", f, f.node, f"{c.name}.{attr} not carried",
+                           f"{c.name} keeps `{attr}` on the part object (`{norm(a, 50)}` in {g.ident}) and Document.clone rebuilds the parts of the copy from their bytes without carrying "
+                           f"that attribute over: the clone starts with the constructor's default, so the two documents, equal in memory, are saved differently")
+    if n < 1:
+        raise AnalysisError("R10j: no part-level attribute found in the XmlPart classes")
+
+
 def run(ctx):
     r10a(ctx)
     r10b(ctx)
@@ -670,7 +712,11 @@ def run(ctx):
     r10g(ctx)
     r10h(ctx)
     r10i(ctx)
+    r10j(ctx)
     r10e(ctx)
+    # a clone that receives the wrapper indexes of its source (instead of new empty dicts) reads and writes the source's rows through them (rule shared with C02)
+    from .c02 import r02f
+    r02f(ctx)
 
 
 from ..selftest import Seed, unparse_seed  # noqa: E402
@@ -682,6 +728,9 @@ _DOC = "src/odfdo/document.py"
 _XP = "src/odfdo/xmlpart.py"
 _EL = "src/odfdo/element.py"
 SEEDS = [
+    Seed("Document.clone forgets that the generator was chosen", "fault", _DOC,
+         "        meta = self.__xmlparts.get(ODF_META)\n        if meta is not None and meta._generator_modified:  # type: ignore\n            # not stored in the bytes of the part: the generator was chosen\n            clone.meta._generator_modified = True\n        return clone",
+         "        return clone", "R10j"),
     Seed("Table.append hands the caller's row over without a copy", "fault", _T, "            self.append_row(something)", "            self.append_row(something, clone=False)", "R10h"),
     Seed("Table.append hands the caller's row over through a private helper", "fault", _T, "            self.append_row(something)", "            self._append_live(something)", "R10h",
          edits=[(_T, "    @property\n    def height(self) -> int:", "    def _append_live(self, row: Row) -> None:\n        self.append_row(row, clone=False)\n\n    @property\n    def height(self) -> int:")]),
